@@ -34,6 +34,8 @@ impl PrintState {
         self.file_handle = 0.into();
         self.format_string = None;
         self.format_string_index = 0;
+        // a statement that an error ended early never reached print_end
+        self.should_skip_new_line = false;
     }
 
     pub fn get_printer_type(&self) -> PrinterType {
